@@ -32,7 +32,9 @@ def run(c):
             args = ["-totals", "1-64", "-ptrstride", 1, "-decstride", 4, "-workers", 8]
         else:
             # complete for short paths and for the longest ones, seeded sample in between
-            args = ["-totals", "1-10,64", "-sample", 150, "-ptrstride", 16, "-decstride", 2, "-workers", 4]
+            # (of the 2017 triples with 64 hops every third one, the offset depends on the seed)
+            args = ["-totals", "1-10,64", "-thin", 3, "-sample", 150, "-ptrstride", 16, "-decstride", 2,
+                    "-workers", 4]
         p = c.run_driver(drv, ["-out", pre, "-shards", shards] + args, timeout=3000)
         c.notes.append("driver: " + p.stdout.strip().splitlines()[-1])
         files = ["%s.%d.ndjson" % (pre, i) for i in range(shards)]
@@ -91,6 +93,6 @@ def run(c):
         c.cov["samples"] = [json.dumps(s)[:1500] for s in c.cov["samples"]]
     c.assumptions += ["hop and info field contents are sampled (seeded), the 26 pointer/length bits are "
                       "enumerated (thorough: all 2^26; quick: all 2^18 triples x 16 pointer pairs, tables for "
-                      "totals <= 10, = 64 and a seeded sample)",
+                      "totals <= 10, a third of the triples with 64 hops and a seeded sample)",
                       "the all-zero segment triple is accepted as the empty path (DESIGN.md section 8)",
                       "for pointer pairs outside the path only the absence of panics is required"]
